@@ -441,6 +441,22 @@ def run(prog, rep):
     lits = sorted(strip_casts(c["args"][1]).get("v") for (b, i, c) in gb.calls() if c.get("callee") == "strcmp" and strip_casts(c["args"][1])["k"] == "str")
     okb = lits == ["FALSE", "TRUE", "false", "true"] and any(c.get("callee") == "atoi" for (b, i, c) in gb.calls())
     rep.ob("C16.5", gb, "boolean", okb, "the boolean getter recognises true/TRUE/false/FALSE, then a positive number" if okb else "the boolean getter's literals are %s" % lits, gb.loc[0])
+    # ... and hands out TRUE or FALSE only: pboolean is a plain int, so `(pboolean) atoi (val)` returns 2 for "2" (not equal to TRUE) and
+    # a negative, truthy number for "-1" (documented FALSE).  Every returned value is a 0/1 constant, a 0/1-valued expression, or the
+    # caller's default handed back untouched.
+    from rules.C10 import boolean_valued
+    rawb = []
+    for (b, i, r) in gb.returns():
+        e = r.get("e")
+        es = strip_casts(e)
+        if es is not None and es["k"] == "ref" and es.get("decl") == "param":
+            continue
+        if not boolean_valued(e, gb, {}):
+            rawb.append((line(r), show(e)))
+    nretb = len(list(gb.returns()))
+    rep.ob("C16.5", gb, "boolean:normalised", nretb >= 1 and not rawb, "each of the %d returns hands out 0/1 (or the caller's default)" % nretb if (nretb and not rawb) else
+           ("line %d: the boolean getter returns %s, which is not normalised to TRUE/FALSE: \"2\" reads as 2 (not equal to TRUE) and \"-1\" as a truthy value where FALSE is documented"
+            % rawb[0] if rawb else "no return found"), gb.loc[0])
     # list getter: an element is emitted only for a non-empty token (runs of blanks and a blank after '{' produce nothing)
     gl = u.fn("p_ini_file_parameter_list").inlined()
     tokbuf = None
@@ -486,7 +502,7 @@ def run(prog, rep):
         g = true_edge_guards(gl, b.id, nonempty)
         rep.ob("C16.5", gl, "list:token#%d" % (k + 1), bool(g), "a list element is emitted only when the token holds at least one character (%s)" % show(g[0]) if g else
                "line %d: a list element is emitted without testing that the token is non-empty: two blanks in a row, or a blank after '{', produce empty elements" % line(c), c)
-    rep.floor("C16.5", 5)
+    rep.floor("C16.5", 6)
 
     # ---- C16.6 grammar table ------------------------------------------------------------------------
     rep.rule("C16.6", "grammar table: the line patterns are exactly the documented ones ([name] header; key = \"v\", key = 'v', key = v up to ; or #), tried in that order with the "
